@@ -34,10 +34,12 @@ class Multi(Block):
     def space(self, case):
         if case.get("space", "dict") == "dict":
             return spaces.Dict({"a": spaces.Box(-1, 1, (4,)), "b": spaces.Box(0, 1, IMG)})
+        if case.get("space") == "dict2":       # image member first in key order, two vector members around it
+            return spaces.Dict({"img": spaces.Box(0, 1, IMG), "aa": spaces.Box(-1, 1, (2,)), "zz": spaces.Discrete(3)})
         return spaces.Tuple((spaces.Box(-1, 1, (3,)), spaces.Discrete(3), spaces.Box(0, 1, IMG)))
 
     def img_key(self, case):
-        return "b" if case.get("space", "dict") == "dict" else "2"
+        return {"dict": "b", "dict2": "img"}.get(case.get("space", "dict"), "2")
 
     def kwargs(self, case):
         cnn = dict(case["cfg"]["cnn_config"])
@@ -75,6 +77,8 @@ class Multi(Block):
     def make_input(self, case, b):
         if case.get("space", "dict") == "dict":
             return {"a": torch.rand(b, 4), "b": torch.rand(b, *IMG)}
+        if case.get("space") == "dict2":       # handed over in a key order different from the space's
+            return {"zz": torch.nn.functional.one_hot(torch.randint(0, 3, (b,)), 3).float(), "img": torch.rand(b, *IMG), "aa": torch.rand(b, 2)}
         onehot = torch.nn.functional.one_hot(torch.randint(0, 3, (b,)), 3).float()    # Discrete sub-space as preprocess_observation delivers it
         return (torch.rand(b, 3), onehot, torch.rand(b, *IMG))
 
@@ -202,25 +206,43 @@ class Multi(Block):
         return (f"{{| mu_latent := {cz(d['latent'])}; mu_cnn := {{| channels := {czl(c['widths'])}; kernels := {czl(c['kernels'])}; "
                 f"strides := {czl(c['strides'])} |}} |}}")
 
+    MLP_BOUNDS = {"min_hidden_layers": 1, "max_hidden_layers": 3, "min_mlp_nodes": 8, "max_mlp_nodes": 64}
+
     def coq(self, case, obs):
-        if case.get("space", "dict") != "dict" or case.get("vector_mlp"):
-            return None
+        tup = case.get("space", "dict") != "dict"
+        if case.get("space") == "dict2" or bool(case.get("vector_mlp")) != tup:
+            return None                      # modelled: Dict space without vector MLP, Tuple space with vector MLP
         cc = self.cnn_case(case)["cfg"]
+        vec = 6 if tup else 4                # Box(3) + one-hot Discrete(3)  |  Box(4)
         st = (f"{{| mus_in_ch := {IMG[0]}; mus_h := {IMG[1]}; mus_w := {IMG[2]}; mus_layer_norm := {coq_bool(case['cfg']['cnn_config'].get('layer_norm', False))}; "
-              f"mus_vec_dims := 4; mus_out := {cz(case['static']['num_outputs'])} |}}")
+              f"mus_vec_dims := {vec}; mus_out := {cz(case['static']['num_outputs'])} |}}")
         cfg = (f"{{| mu_min_latent := {cz(case['cfg']['min_latent_dim'])}; mu_max_latent := {cz(case['cfg']['max_latent_dim'])}; "
                f"mu_cnn_cfg := {BLOCKS['cnn'].cfg_term(cc)} |}}")
+        key = self.img_key(case)
 
-        def mt(s):
+        def core(s):
             m, a = s["m"], s.get("args", {})
             if m == "add_latent_node":
                 return f"(MuAddLatent {copt(a.get('numb_new_nodes'))})"
             if m == "remove_latent_node":
                 return f"(MuRemoveLatent {copt(a.get('numb_new_nodes'))})"
             return f"(MuCnn {BLOCKS['cnn'].meth_term({'m': m.split('.')[2], 'args': a})})"
-        steps = "[" + "; ".join(f"({mt(s)}, {draws(s, 2)}, {cobs(self.arch_term(r['desc']), r)})" for s, r in zip(case["steps"], obs["steps"])) + "]"
-        d0 = {"latent": case["init"]["latent"], "cnn": case["init"]["cnn"]}
-        return f"check_multi {st} {cfg} {self.arch_term(d0)} (Some {cshapes(obs['shapes0'])}) {steps}"
+        if not tup:
+            steps = "[" + "; ".join(f"({core(s)}, {draws(s, 2)}, {cobs(self.arch_term(r['desc']), r)})" for s, r in zip(case["steps"], obs["steps"])) + "]"
+            d0 = {"latent": case["init"]["latent"], "cnn": case["init"]["cnn"]}
+            return f"check_multi {st} {cfg} {self.arch_term(d0)} (Some {cshapes(obs['shapes0'])}) {steps}"
+
+        def a2(d):
+            return f"{{| m2_core := {self.arch_term(d)}; m2_mlp := {czl(d['mlp']['widths'])} |}}"
+
+        def m2(s):
+            if s["m"].startswith("feature_net.vector_mlp."):
+                return f"(M2Mlp {BLOCKS['mlp'].meth_term({'m': s['m'].split('.')[2], 'args': s.get('args', {})})})"
+            return f'(M2Core "{key}" {core(s)})'
+        st2 = f"{{| m2_base := {st}; m2_mlp_layer_norm := true |}}"
+        cfg2 = f"{{| m2_cfg := {cfg}; m2_mlp_cfg := {BLOCKS['mlp'].cfg_term(self.MLP_BOUNDS)} |}}"
+        steps = "[" + "; ".join(f"({m2(s)}, {draws(s, 2)}, {cobs(a2(r['desc']), r)})" for s, r in zip(case["steps"], obs["steps"])) + "]"
+        return f"check_multi2 {st2} {cfg2} {a2(obs['desc0'])} (Some {cshapes(obs['shapes0'])}) {steps}"
 
 
 class NetMulti(Block):
@@ -376,7 +398,15 @@ def gen_multi(tier, rng):
         cases.append({"block": "multi", "space": "tuple", "vector_mlp": True, "static": {"num_outputs": 4},
                       "cfg": {"min_latent_dim": 8, "max_latent_dim": 128, "cnn_config": {"min_channel_size": 8, "max_channel_size": 48, "init_layers": False}},
                       "init": {"latent": 16, "cnn": {"layers": 1, "widths": [8], "kernels": [3], "strides": [1]}},
-                      "steps": steps, "every": 3, "src": "walk-oracle-only"})
+                      "steps": steps, "every": 3, "src": "walk"})
+    k3 = "feature_net.img."
+    meths3 = ["add_latent_node", "remove_latent_node"] + [k3 + x for x in ("add_channel", "remove_channel", "change_kernel", "add_layer", "remove_layer")]
+    for w in range(1 if quick else 6):
+        steps = [S(rng.choice(meths3), (rng.randrange(100), rng.randrange(100))) for _ in range(8 if quick else 40)]
+        cases.append({"block": "multi", "space": "dict2", "static": {"num_outputs": 4},
+                      "cfg": {"min_latent_dim": 8, "max_latent_dim": 128, "cnn_config": {"min_channel_size": 8, "max_channel_size": 48, "init_layers": False}},
+                      "init": {"latent": 16, "cnn": {"layers": 1, "widths": [8], "kernels": [3], "strides": [1]}},
+                      "steps": steps, "every": 2, "src": "walk-oracle-only"})
     for n in ("q", "value", "det"):
         for sp in ("dict", "tuple"):
             if quick and (n, sp) not in (("q", "dict"), ("value", "tuple"), ("det", "dict")):
@@ -403,7 +433,12 @@ class CNN3d(B.CNN):
         return torch.rand(b, c, self.DEPTH, h, w)
 
     def coq(self, case, obs):
-        return None
+        steps = "[" + "; ".join(
+            f"({self.meth_term(s)}, {draws(s, 2)}, "
+            f"{cobs('(' + czl(r['desc']['widths']) + ', ' + czl(r['desc']['kernels']) + ', ' + czl(r['desc']['strides']) + ')', r)})"
+            for s, r in zip(case["steps"], obs["steps"])) + "]"
+        return (f"check_cnn3d {self.static_term(case['static'])} {self.DEPTH} {self.cfg_term(case['cfg'])} {self.arch_term(case['init'])} "
+                f"(Some {cshapes(obs['shapes0'])}) {steps}")
 
 
 def gen_cnn3d(tier, rng):
@@ -414,7 +449,7 @@ def gen_cnn3d(tier, rng):
         steps = [S(rng.choice(["add_layer", "remove_layer", "change_kernel", "change_kernel", "add_channel", "remove_channel"]),
                    (rng.randrange(100), rng.randrange(100))) for _ in range(12 if tier == "quick" else 60)]
         cases.append({"block": "cnn3d", "static": static, "cfg": cfg, "init": {"channels": [8, 8], "kernels": [3, 3], "strides": [1, 1]},
-                      "steps": steps, "every": 3, "src": "walk-oracle-only"})
+                      "steps": steps, "every": 3, "src": "walk"})
     return cases, True
 
 
